@@ -75,7 +75,8 @@ enum Transform
 };
 const char *transformName(int t);
 // scheme for T_RENAME_VARIABLES: 0 uniform per class, 1 distinct per instance, 2 small shared pool (coincidences across
-// classes), 3 permute the existing names within each component
+// classes), 3 permute the existing names within each component, 4 targeted: the members of a class outside its defining
+// component carry a name that an unrelated variable of the defining component carries too
 void applyTransform(TM &m, int t, Src &src, unsigned renameScheme);
 void renameVariablesUniform(TM &m);
 
